@@ -13,7 +13,7 @@ from topsim.core.scheduler import Scheduler
 PIN = {}
 FUNCTIONS = [Task._wait_for_transfer, Task.do_work, Scheduler._find_pred_allocations]
 META = {
-    'bounds': {'C03.smt.predecessors': '0..3 on other machines', 'C03.smt.now/aft/io/bw': 'unbounded ints (bw >= 1, io >= 0)', 'C03.find_pred': '3 predecessors, machine index of each symbolic'},
+    'bounds': {'C03.smt.predecessors': '0..3 on other machines', 'C03.smt.now/aft/io/bw': 'unbounded ints (bw >= 1, io >= 0)', 'C03.find_pred': '3 predecessors, machine index of each symbolic', 'C03.wait_grid': 'now 2..4, predecessor finish 0..now, volumes bw x (0..3), 0..3 predecessors (case-split, native)'},
     'outside_bounds': ['more than 3 cross-machine predecessors', 'binary64 rounding of io/bw when bw does not divide io (rational reading asserted instead)'],
     'stubs': [], 'assumptions': ['lemma L3 beyond the solver-checked width'],
 }
@@ -46,7 +46,7 @@ def s1(spec):
     npaths = nq = 0
     lem = set()
     for k in range(0, 4):
-        paths, v, ex, A = encode(k)
+        paths, v, ex, A = K.encoding(encode, k)
         npaths += len(paths)
         nq += ex.queries
         lem |= ex.lemmas
@@ -169,6 +169,41 @@ def fpa(m0: int, m1: int, m2: int, mt: int, np_: int) -> bool:
     return wit.verdict(t)
 
 
+def _wait(now, bw, a0, a1, a2, v0, v1, v2, k):
+    got, want = real_start(now, bw, [a0, a1, a2], [bw * v0, bw * v1, bw * v2], k)
+    if got != want:
+        return 'C03/start-not-max-of-allocation-and-arrivals'
+    return None
+
+
+def wait_tag(now, a0, a1, a2, v0, v1, v2, k):
+    """Engine A cross-check of S1 on the real Task.do_work under SimPy: every combination of predecessor finish times and
+    edge volumes (whole multiples of the bandwidth) in a small box, case-split by the solver and run natively - independent
+    of whether Engine B can parse the current source"""
+    wit.begin()
+    cz = wit.concretize
+    now, a0, a1, a2 = cz(now, 0, 4), cz(a0, 0, 4), cz(a1, 0, 4), cz(a2, 0, 4)
+    v0, v1, v2, k = cz(v0, 0, 3), cz(v1, 0, 3), cz(v2, 0, 3), cz(k, 0, 3)
+    if k >= 2:
+        wit.reach('several-cross-machine-predecessors')
+    return wit.native(_wait, now, PIN.get('bw', 5), a0, a1, a2, v0, v1, v2, k)
+
+
+def wait(now: int, a0: int, a1: int, a2: int, v0: int, v1: int, v2: int, k: int) -> bool:
+    """
+    pre: 0 <= now <= 4 and 0 <= a0 <= now and 0 <= a1 <= now and 0 <= a2 <= now
+    pre: 0 <= v0 <= 3 and 0 <= v1 <= 3 and 0 <= v2 <= 3 and 0 <= k <= 3 and pinned_now(now)
+    post: _
+    """
+    t = wait_tag(now, a0, a1, a2, v0, v1, v2, k)
+    wit.note(t, now=now, a0=a0, a1=a1, a2=a2, v0=v0, v1=v1, v2=v2, k=k)
+    return wit.verdict(t)
+
+
+def pinned_now(now):
+    return PIN.get('now') is None or now == PIN['now']
+
+
 def warmup():
     fpa_tag(0, 1, 2, 0, 3)
 
@@ -176,4 +211,6 @@ def warmup():
 def shards(tier, prop):
     from vk import lemmas
     return [{'kind': 'py', 'fn': 's1', 'cond_timeout': 300, 'name': 'smt:Task._wait_for_transfer+do_work'},
-            {'fn': 'fpa', 'cond_timeout': 200}, {'fn': 'fpa', 'cond_timeout': 40, 'twin': True}] + lemmas.jobs(['L3'], tier)
+            {'fn': 'fpa', 'cond_timeout': 200}, {'fn': 'fpa', 'cond_timeout': 40, 'twin': True}] + lemmas.jobs(['L3'], tier) + \
+           [{'fn': 'wait', 'pin': {'now': n, 'bw': b}, 'cond_timeout': 200} for (n, b) in ((2, 5), (3, 1), (4, 2))] + \
+           [{'fn': 'wait', 'pin': {'now': 3, 'bw': 5}, 'cond_timeout': 40, 'twin': True}]
